@@ -88,6 +88,11 @@ class Repo:
             raise AnalysisError(f"package directory {pkg} is missing")
         externs, sig_digest = self._package_signatures(pkg)
         self._externs = externs
+        # a module's normal form depends on its own text and on the signatures of what it imports from the package - nothing else
+
+        def _stable(x):
+            return sorted((k, _stable(v)) for k, v in x.items()) if isinstance(x, dict) else (tuple(_stable(y) for y in x) if isinstance(x, (tuple, list)) else x)
+        ext_digest = {rel: hashlib.sha1(repr(_stable(ex)).encode()).hexdigest() for rel, ex in externs.items()}
         for dirpath, dirnames, filenames in os.walk(pkg):
             dirnames[:] = sorted(d for d in dirnames if d != "__pycache__")
             for fn in sorted(filenames):
@@ -100,14 +105,14 @@ class Repo:
                     if rel in self.overlay:
                         src = self.overlay[rel]
                         ck = None
-                        ok_ = (rel, hashlib.sha1(src.encode("utf-8", "replace")).hexdigest(), sig_digest)
+                        ok_ = (rel, hashlib.sha1(src.encode("utf-8", "replace")).hexdigest(), ext_digest.get(rel))
                         if ok_ in _OVERLAY_CACHE:
                             _OVERLAY_CACHE.move_to_end(ok_)
                             self.modules[rel] = _OVERLAY_CACHE[ok_]
                             continue
                     else:
                         st = os.stat(path)
-                        ck = (path, st.st_mtime_ns, st.st_size, sig_digest)
+                        ck = (path, st.st_mtime_ns, st.st_size, ext_digest.get(rel))
                         if ck in _PARSE_CACHE:
                             self.modules[rel] = _PARSE_CACHE[ck]
                             continue
